@@ -9,7 +9,7 @@ SPECS = [p_kani.Spec("steel-core", "steel-core/src/primitives/numbers.rs", "num.
 
 FUNCS = ["primitives::numbers::{add_two, add_two_fallible, negate, abs, subtract_primitive, multiply_two, truncate_quotient, "
          "truncate_remainder, floor_quotient, floor_remainder, euclidean_quotient, euclidean_remainder, even, odd, "
-         "exact_integer_sqrt, exact_integer_impl, arithmetic_shift}", "primitives::IntoSteelVal for {isize, BigInt} (canonicalisation)"]
+         "exact_integer_sqrt, exact_integer_impl, arithmetic_shift, expt (exact integer base, exponent -1)}", "primitives::IntoSteelVal for {isize, BigInt} (canonicalisation)"]
 
 ASSUME = [
     "stub: std::rt::thread_cleanup = no-op (Kani ICE workaround); alloc::fmt::format returns an empty String (error text is not checked, error VALUES are)",
@@ -35,6 +35,7 @@ def plan(tier):
         {"h": "num_neg_rational", "sym": "n/3 for every i32 n not divisible by 3"},
         {"h": "num_int_float_equality", "sym": "i: isize, f: finite f64"},
         {"h": "num_arithmetic_shift_exact", "sym": "n: isize, m: isize (both full width)"},
+        {"h": "num_expt_reciprocal", "sym": "(expt l -1), l: every non-zero integer with i32::MIN < l <= i32::MAX"},
     ]
     t = [
         {"h": "num_add_fallible_ii", "sym": SYM2},
